@@ -477,6 +477,8 @@ var c14Schemes = []c14Scheme{
 	{"file", "file:///etc/passwd"}, {"empty", ""}, {"relative", "/saml/acs"}, {"scheme-relative", "//evil.example.net/x"}, {"leading-space-js", " javascript:alert(1)"},
 	{"leading-tab-js", "\tjavascript:alert(1)"}, {"leading-ctrl-js", "\x01javascript:alert(1)"}, {"tab-inside-js", "java\tscript:alert(1)"}, {"encoded-js", "%6aavascript:alert(1)"},
 	{"malformed-ipv6", "http://[::1"}, {"colon-only", ":"}, {"ftp", "ftp://ok.example.com/x"}, {"mailto", "mailto:a@example.com"}, {"https-userinfo", "https://user:pw@ok.example.com/x"},
+	// schemes that merely begin like http / https
+	{"httpx", "httpx://ok.example.com/x"}, {"http-handler", "http-handler:ok.example.com/x"}, {"https+app", "https+app://ok.example.com/x"}, {"httpss", "HTTPSS://ok.example.com/x"}, {"http.evil", "http.evil:alert(1)"}, {"htt", "htt://ok.example.com/x"},
 }
 
 // ("" = Binding="" ; "\x00absent" = no Binding attribute at all: neither names a binding whose locations could be vouched for)
